@@ -77,7 +77,7 @@ func (tr *Translator) obsValue(label string, t types.Type, term Sx, depth int) [
 		key := "E:" + shortType(u.Elem())
 		if _, ok := c.memSorts[key]; ok && depth < 2 {
 			for k := 0; k < 6; k++ {
-				et := sx("select", sx("select", tr.memGet(tr.topEntry, key), sx("sl_arr", term)), it.add(I64, sx("sl_off", term), it.iconst(int64(k))))
+				et := sx("select", sx("select", tr.memGet(tr.topEntry, key), sx("sl_arr", term)), it.addNW(sx("sl_off", term), it.iconst(int64(k))))
 				out = append(out, tr.obsValue(fmt.Sprintf("%s[%d]", label, k), u.Elem(), et, depth+1)...)
 			}
 		}
